@@ -35,6 +35,12 @@ chk("C17", "venum",
     "Trusted: WHATWG subset; recorder output is passed through net/http's documented header sanitisation and that is conformance-checked against a real http.Server over loopback for ~1% of points and every violation. Okta OTP site is not driven (listed as not driven).",
     "DESIGN.md 3 C17")
 
+chk("C18", "venum",
+    "exhaustive enumeration of canary payloads x request-controlled fields x routes x sessions x methods on the real handlers; each HTML response parsed with an HTML5 parser",
+    "For every route registered on the service mux of the current source (extracted at check time), every session kind (none, password, full, admin), GET and POST, every request-controlled field (all form fields any handler reads as collected by verifgen, path suffix, raw query, User-Agent/Referer/Origin/X-Forwarded-For headers, cookie values) and 21 canary payloads (quote/angle-bracket breakers, raw-text and comment closers, entity-, percent- and double-encoded forms, query/fragment-borne), the real handler is run and every text/html response is parsed with golang.org/x/net/html; no canary-named element or attribute may appear. Stored fields are attempted through the real admin handlers.",
+    "Trusted: x/net/html as the browser's parser. Only single-field injections with the stated payload set; Okta pages not reachable without an Okta backend.",
+    "DESIGN.md 3 C18")
+
 NOT_YET = {
 }
 
